@@ -14,6 +14,7 @@ set_option linter.unusedVariables false
 set_option linter.unusedSimpArgs false
 namespace FontVerif.C01HandGlyf
 open FontVerif FontVerif.ReadIter FontVerif.HandRead FontVerif.HandGlyf
+open FontVerif.Glyf (hasBit ARG_WORDS ARGS_XY HAVE_SCALE HAVE_XY_SCALE HAVE_2X2)
 
 /-! ## simple glyphs -/
 
@@ -147,7 +148,66 @@ theorem instructions_eq (d : List Nat) (hl : d.length ≤ MAXU) :
   obtain ⟨_, count, instr, _, h2, _⟩ := countAndInstructions_facts d hl
   exact ⟨count, instr, h2, by simp [instructions, h2]⟩
 
+/-! ## `Anchor::compute_flags` / `Transform::compute_flags` (models: Model/Glyf.lean, check C09) -/
+
+/-- **a decoded anchor never needs wider arguments than its record had**: `Anchor::compute_flags` of an
+anchor read from byte arguments does not ask for `ARG_1_AND_2_ARE_WORDS`, and it reproduces the
+record's `ARGS_ARE_XY_VALUES` bit. -/
+theorem anchorFlags_consistent (flags a b : Nat) (ha : a < 256) (hb : b < 256)
+    (hw : hasBit flags ARG_WORDS = false) :
+    (decodeAnchor flags a b).computeFlags = if hasBit flags ARGS_XY then ARGS_XY else 0 := by
+  unfold decodeAnchor
+  by_cases hxy : hasBit flags ARGS_XY = true
+  · simp only [hxy, hw, if_true]
+    unfold Glyf.Anchor.computeFlags wrapI8
+    have h1 : ¬ (¬ (-128 ≤ (let m := (a : Int) % 256; if m < 128 then m else m - 256) ∧ (let m := (a : Int) % 256; if m < 128 then m else m - 256) < 128) ∨
+        ¬ (-128 ≤ (let m := (b : Int) % 256; if m < 128 then m else m - 256) ∧ (let m := (b : Int) % 256; if m < 128 then m else m - 256) < 128)) := by
+      simp only []
+      omega
+    simp only [h1, if_false]
+    decide
+  · have hxy' : hasBit flags ARGS_XY = false := by simpa using hxy
+    simp only [hxy', Bool.false_eq_true, if_false]
+    unfold Glyf.Anchor.computeFlags
+    have : ¬ (a > 255 ∨ b > 255) := by omega
+    simp [this]
+
+/-- `Transform::compute_flags` names at most one of the three transform layouts -/
+theorem transformFlags_range (t : Glyf.Transform) :
+    t.computeFlags = 0 ∨ t.computeFlags = HAVE_SCALE ∨ t.computeFlags = HAVE_XY_SCALE ∨ t.computeFlags = HAVE_2X2 := by
+  unfold Glyf.Transform.computeFlags
+  split
+  · right; right; right; rfl
+  · split
+    · right; right; left; rfl
+    · split
+      · right; left; rfl
+      · left; rfl
+
 /-! ## loca -/
+
+/-- **`all_offsets_are_ascending` is exactly "no entry is larger than its successor"** (the `zip` with
+`skip(1)` pairs every entry with the next one and nothing else). -/
+theorem allAscending_iff (l : Loca) :
+    l.allAscending = true ↔
+      ∀ i a b, l.entries[i]? = some a → l.entries[i + 1]? = some b → a ≤ b := by
+  unfold Loca.allAscending
+  simp only [Bool.not_eq_true', List.any_eq_false, decide_eq_true_eq, Nat.not_lt]
+  constructor
+  · intro h i a b ha hb
+    have hz : (l.entries.zip (l.entries.drop 1))[i]? = some (a, b) := by
+      rw [List.getElem?_zip_eq_some]
+      refine ⟨ha, ?_⟩
+      rw [List.getElem?_drop, Nat.add_comm]; exact hb
+    exact h (a, b) (List.mem_of_getElem? hz)
+  · intro h p hp
+    obtain ⟨i, hi⟩ := List.getElem?_of_mem hp
+    have : (l.entries.zip (l.entries.drop 1))[i]? = some (p.1, p.2) := hi
+    rw [List.getElem?_zip_eq_some] at this
+    obtain ⟨ha, hb⟩ := this
+    rw [List.getElem?_drop, Nat.add_comm] at hb
+    exact h i p.1 p.2 ha hb
+
 
 /-- **`Loca::read` succeeds exactly on whole entries**: `Ok` iff the length is a multiple of the entry
 size (then `entries · size = len`, and short entries are u16s), else `InvalidArrayLen`. -/
